@@ -22,3 +22,31 @@
     pub closed spec fn cfg(&self) -> (u8, Option<usize>) { (self.allowed_errors, self.max_allowed_tag_size) }
     /// number of source reads that returned Ok(0) so far
     pub closed spec fn zr(&self) -> nat { self.source.zero_reads() }
+    /// C03 / C12, per tag: the relation between the state before (o) and after (self) reading one tag and its result.
+    /// Ok: the tag, its offsets and the bytes consumed are exactly what the bytes at the cursor encode (header = sp_header,
+    /// element = sp_decode of the payload bytes); a master consumes its header only.  Err(UnexpectedEOF) with a size: the
+    /// error names the tag's start, id and declared size, carries exactly the bytes that were available, and a source read
+    /// returned Ok(0).
+    pub closed spec fn tag_post(&self, o: &Self, r: Result<ProcessingTag<TSpec>, TagIteratorError>) -> bool {
+        let f = o.future();
+        &&& r matches Ok(pt) ==> {
+                let hl = pt.data_start - pt.tag_start;
+                let ty = TSpec::sp_type(sp_header_id(f));
+                &&& pt.tag_start == o.cursor() && 2 <= hl <= 16
+                &&& sp_header(f, sp_header_id(f), pt.size, hl)
+                &&& (ty == Some(TagDataType::Master) ==> self.cursor() == pt.data_start && self.future() =~= f.subrange(hl, f.len() as int) && Some(pt.tag) == TSpec::sp_mk_start(sp_header_id(f)))
+                &&& (ty != Some(TagDataType::Master) ==> {
+                        &&& pt.size is Known && hl + pt.size->Known_0 <= f.len()
+                        &&& self.cursor() == pt.data_start + pt.size->Known_0
+                        &&& self.future() =~= f.subrange(hl + pt.size->Known_0, f.len() as int)
+                        &&& Some(pt.tag) == sp_decode::<TSpec>(ty, sp_header_id(f), f.subrange(hl, hl + pt.size->Known_0))
+                    })
+            }
+        &&& r matches Err(TagIteratorError::UnexpectedEOF { tag_start, tag_id, tag_size, partial_data }) ==> (tag_size is Some ==> {
+                &&& tag_start == o.cursor() && tag_id == Some(sp_header_id(f))
+                &&& self.zr() > o.zr()
+                &&& partial_data is Some && partial_data->Some_0@ =~= self.avail()
+                &&& sp_header(f, sp_header_id(f), EBMLSize::Known(tag_size->Some_0), self.cursor() - o.cursor())
+                &&& self.future() =~= f.subrange(self.cursor() - o.cursor(), f.len() as int) && self.avail().len() < tag_size->Some_0
+            })
+    }
